@@ -363,7 +363,7 @@ pub fn build(tier: &str) -> SimCheck {
         scenarios,
         oracle: Box::new(oracle),
         bound: if thorough { 3 } else { 2 },
-        limits: Limits { max_wall_s: if thorough { 2400.0 } else { 55.0 }, ..Default::default() },
+        limits: Limits { max_wall_s: if thorough { 2400.0 } else { 150.0 }, ..Default::default() },
         rule: "scenario = mirror layout (one mirror on server 0, on server 1, two on server 0, one on each) x behaviour of the first mirror (healthy, down, closing after accept, SYN black hole, accepting and never answering, accepting and never reading, closing mid-stream, answering errors, slow), from the start or toggled (and recovered) at every point of the client's program (<= bound deviations); 22-30 requests (each server gets more chunks than the 10-slot mirror channel holds) alternating between primary and replica over both protocols incl. COPY and multi-kilobyte replies; also a mirror that stalls for eight seconds and resumes while 400 KB requests fill the pipe to it (also with a RELOAD that rebuilds the pool during the stall); also with the prewarmer plugin on (statements of the pooler's own on every new server connection)".into(),
         assumptions: vec![
             "'same replies as without mirrors' is judged against the direct-connection reference; 'no added waiting' as: every reply arrives in the virtual instant of its request".into(),
